@@ -133,4 +133,39 @@ theorem endsPlain_drop (bs : List (Block ε)) (i : Nat) (hi : i < bs.length)
       | cons b' rest' =>
         exact ih k (by simpa using hi) h
 
+theorem size_cons (kv : String × List ε) (h : Hist ε) : Hist.size (kv :: h) = kv.2.length + Hist.size h := by
+  simp [Hist.size]
+
+theorem size_map_ge (g : String) (e : ε) (h : Hist ε) :
+    Hist.size h ≤ Hist.size (h.map (fun kv => if kv.1 == g then (kv.1, kv.2 ++ [e]) else kv)) := by
+  induction h with
+  | nil => simp
+  | cons kv rest ih =>
+    rw [List.map_cons, size_cons, size_cons]
+    by_cases hk : (kv.1 == g) = true
+    · simp only [hk, if_true, List.length_append, List.length_cons, List.length_nil]; omega
+    · simp only [hk, Bool.false_eq_true, if_false]; omega
+
+/-- `addEvent` never loses an event: the history grows by at least the event offered
+(exactly one when group names are unique, as in a Python dict). -/
+theorem addEvent_size_ge (h : Hist ε) (g : String) (e : ε) : Hist.size h + 1 ≤ Hist.size (addEvent h g e) := by
+  unfold addEvent
+  split
+  · rename_i hany
+    induction h with
+    | nil => simp at hany
+    | cons kv rest ih =>
+      rw [List.map_cons, size_cons, size_cons]
+      by_cases hk : (kv.1 == g) = true
+      · have := size_map_ge g e rest
+        simp only [hk, if_true, List.length_append, List.length_cons, List.length_nil]; omega
+      · have hany' : rest.any (·.1 == g) = true := by
+          simp only [List.any_cons, Bool.or_eq_true] at hany
+          rcases hany with h1 | h1
+          · exact absurd h1 hk
+          · exact h1
+        have := ih hany'
+        simp only [hk, Bool.false_eq_true, if_false]; omega
+  · simp [Hist.size]
+
 end Bobo.Run
